@@ -122,6 +122,12 @@ def run(pid, tier, seed):
                                               f"{ev['decl_concrete'].get('Ok', '')[:200]}", wit, tags=tags + ["not-equivalent", f"args:{argk}"])
                             elif isinstance(v, dict) and "inconclusive" in v:
                                 chk.hist("equivalence_inconclusive", v["inconclusive"][:50])
+                                # the concrete declaration of an instantiation cannot mention a parameter of the definition
+                                mname = v["inconclusive"].split("unresolved-name:")[-1] if "unresolved-name:" in v["inconclusive"] else None
+                                if mname in m["params"] and direction == "expanded_in_concrete":
+                                    chk.violation(f"C07|parameter-in-concrete-declaration|{m['kind']}",
+                                                  f"{ev['rust']}: decl_concrete() / inline() mentions the type parameter `{mname}`: "
+                                                  f"{ev['decl_concrete'].get('Ok', '')[:200]}", wit, tags=tags + ["parameter-in-concrete-declaration"])
                 if len(decls) > 1:
                     chk.violation(f"C07|decl-depends-on-arguments|{m['kind']}", f"{it.name}: decl() differs between instantiations: {sorted(decls)[:2]}",
                                   {"source": src, "decls": sorted(decls)}, tags=tags + ["decl-depends-on-arguments"])
